@@ -119,6 +119,24 @@ SIDE_SIGNS = {
 }
 
 
+# the `facing` family: how the new object gets its parent orientation x which member of the family is used
+FACE_MODES = {
+    "ex": ([], "new Ob at p, with parentOrientation Qn(pq)"),                       # explicit `with parentOrientation`
+    "op": (["r = new OrientedPoint at p, facing Qn(pq)"], "new Ob ahead of r by 1"),  # inherited from an oriented point
+    "sf": (["g = PointSetRegion('g', [p], orientation=VectorField('f', lambda pos: Qn(pq)))"],
+           "new Ob on g"),                                                          # inherited from an oriented surface
+}
+FACE_SPECS = {
+    "num": "facing a",                                  # a plain number (float or int)
+    "tup": "facing (a[0], a[1], a[2])",                 # a (yaw, pitch, roll) tuple
+    "ori": "facing Qn(a)",                              # an Orientation
+    "vf": "facing VectorField('h', lambda pos: Hd(a))",  # a vector field (orientation- or heading-valued)
+    "toward": "facing toward a", "away": "facing away from a",
+    "dtoward": "facing directly toward a", "daway": "facing directly away from a",
+    "app": "apparently facing a[0] from a[1]",
+}
+
+
 # --------------------------------------------------------------------------- exact helpers
 def fr(x):
     x = F(x)
@@ -230,6 +248,11 @@ def rquat(rng, kind=None):
     if kind == "yaw":
         a, b = rhalf(rng)
         return qz(a, b), kind
+    if kind == "tilt":          # yaw * pitch * roll with non-zero pitch AND roll (pitch within (-90, 90) degrees)
+        while True:
+            y, pt, r = rhalf(rng), rhalf(rng, forward=True), rhalf(rng)
+            if pt[1] != 0 and r[1] != 0 and r[0] != 0:
+                return qz(*y) * qx(*pt) * qy(*r), kind
     if kind == "axis":
         return rng.choice([Quat(1, 1, 0, 0), Quat(1, 0, 1, 0), Quat(1, 0, 0, 1), Quat(0, 1, 0, 0), Quat(0, 0, 1, 0),
                            Quat(0, 0, 0, 1), Quat(1, -1, 0, 0), Quat(1, 1, 1, 1)]), kind
@@ -355,12 +378,17 @@ def library_source():
           "def on_reg(p, q, base, ct):",
           "    g = PointSetRegion('g', [p], orientation=VectorField('f', lambda pos: Qn(q)))",
           "    return new Ob on g, with baseOffset base, with contactTolerance ct",
-          "def facing_(p, pq, tq):", "    return new Ob at p, with parentOrientation Qn(pq), facing Qn(tq)",
-          "def facing3_(p, pq, e):", "    return new Ob at p, with parentOrientation Qn(pq), facing (e[0], e[1], e[2])",
-          "def toward_(p, pq, t):", "    return new Ob at p, with parentOrientation Qn(pq), facing toward t",
-          "def away_(p, pq, t):", "    return new Ob at p, with parentOrientation Qn(pq), facing away from t",
-          "def dtoward_(p, pq, t):", "    return new Ob at p, with parentOrientation Qn(pq), facing directly toward t",
-          "def daway_(p, pq, t):", "    return new Ob at p, with parentOrientation Qn(pq), facing directly away from t",
+          "def Hd(a):", "    return Qn(a) if isinstance(a, tuple) else a"]
+    # every member of the `facing` family under every way of getting a parent orientation
+    for mode, (pre, head) in FACE_MODES.items():
+        for member, spec in FACE_SPECS.items():
+            L += [f"def ff_{mode}_{member}(p, pq, a):"] + ["    " + x for x in pre] + [f"    return {head}, {spec}"]
+    L += ["def facing_(p, pq, tq):", "    return ff_ex_ori(p, pq, tq)",
+          "def facing3_(p, pq, e):", "    return ff_ex_tup(p, pq, e)",
+          "def toward_(p, pq, t):", "    return ff_ex_toward(p, pq, t)",
+          "def away_(p, pq, t):", "    return ff_ex_away(p, pq, t)",
+          "def dtoward_(p, pq, t):", "    return ff_ex_dtoward(p, pq, t)",
+          "def daway_(p, pq, t):", "    return ff_ex_daway(p, pq, t)",
           "def appfacing_(p, pq, h, f):",
           "    n = new Ob at p, with parentOrientation Qn(pq), apparently facing h from f",
           "    return (n, apparent heading of n from f)",
@@ -552,11 +580,33 @@ def case_on(rng):
 
 
 def case_facing(rng):
-    (pq, pk), (tq, tk), p = rquat(rng), rquat(rng), rpos(rng)
+    """`facing H` (H an Orientation, a number, a tuple, a vector field) under an explicit / inherited parent orientation:
+    local angles and global orientation"""
+    member = rng.choice(["ori", "ori", "num", "num", "tup", "vf", "vfh"])
+    mode = rng.choice(["ex", "ex", "op", "sf"])
+    (pq, pk), p = rquat(rng, rng.choice([None, "tilt"])), rpos(rng)
+    if member in ("ori", "vf"):
+        tq, tk = rquat(rng)
+        a, src = tq.xyzw(), tq.scenic()
+    elif member in ("num", "vfh"):
+        hh = rhalf(rng)
+        tq, tk, a = qz(*hh), "heading", ang_f(hh)
+        src = f"({fl(a)})"
+    else:
+        y, pt, r = rhalf(rng), rhalf(rng, forward=True), rhalf(rng)
+        tq, tk, a = qz(*y) * qx(*pt) * qy(*r), "euler", (ang_f(y), ang_f(pt), ang_f(r))
+        src = f"({fl(a[0])}, {fl(a[1])}, {fl(a[2])})"
+    if member in ("vf", "vfh"):
+        src = f"VectorField('h', lambda pos: {src})"
     lean = f"C07 facing {pq.lean()} {tq.lean()}"
-    code = [f"n = new Object at {vec_s(p)}, with parentOrientation {pq.scenic()}, facing {tq.scenic()}{OBJ_TAIL}"]
-    return {"op": f"facing:{pk}:{tk}", "lean": lean, "code": code, "get": "local_global", "pick": None,
-            "call": ("facing_", fv(p), pq.xyzw(), tq.xyzw()), "scale": 1.0}
+    pre, head = FACE_MODES[mode]
+    code = [x.replace("Qn(pq)", "(" + pq.scenic() + ")").replace("[p]", "[" + vec_s(p) + "]").replace(" p,", " " + vec_s(p) + ",")
+            for x in pre]
+    code += ["n = " + head.replace("new Ob", "new Object").replace("Qn(pq)", "(" + pq.scenic() + ")")
+             .replace("at p", "at " + vec_s(p)) + f", facing {src}{OBJ_TAIL}"]
+    fn = "vf" if member == "vfh" else member
+    return {"op": f"facing:{member}:{mode}:{pk}:{tk}", "lean": lean, "code": code, "get": "local_global", "pick": None,
+            "call": (f"ff_{mode}_{fn}", fv(p), pq.xyzw(), a), "scale": 1.0}
 
 
 def case_facingtoward(rng):
@@ -1044,62 +1094,112 @@ def finish_directional(ctx, batch, cases):
     return found
 
 
+FACE_KINDS = ["num", "num", "int", "tup", "ori", "vf", "vfh", "toward", "away", "dtoward", "daway", "app", "apparent", "apparent"]
+
+
 def plan_facing(ctx, batch, n):
+    """every member of the `facing` family (`facing H` with H a number / int / tuple / Orientation / vector field,
+    `facing [directly] toward / away from`, `apparently facing`) x every way of getting the parent orientation
+    (explicit `with parentOrientation`, inherited from an oriented point, from an oriented surface) x parents with
+    non-zero pitch and roll"""
     rng = ctx.rng
     cases = []
-    for _ in range(n):
-        kind = rng.choice(["facing", "facing3", "toward", "away", "dtoward", "daway", "apparent", "apparent"])
-        c = dict(family="facing", kind=kind, pq=rquat(rng, "yaw" if kind == "apparent" and rng.random() < 0.8 else None),
-                 tq=rquat(rng), p=rpos(rng), t=rpos(rng), e=(rhalf(rng), rhalf(rng, True), rhalf(rng)), h=rhalf(rng))
+    combos = [(k, m) for k in dict.fromkeys(FACE_KINDS) for m in FACE_MODES if k != "apparent"]
+    rng.shuffle(combos)
+    for i in range(n):
+        if i < len(combos):          # every (member, mode) combination at least once, under a tilted parent
+            kind, mode = combos[i]
+            pk = "tilt"
+        else:
+            kind, mode = rng.choice(FACE_KINDS), rng.choice(["ex", "ex", "op", "sf"])
+            pk = rng.choice(["tilt", "tilt", "gen", None])
+        if kind == "apparent":
+            mode = "ex"
+            if rng.random() < 0.6:
+                pk = "yaw"
+        c = dict(family="facing", kind=kind, mode=mode, pq=rquat(rng, pk),
+                 tq=rquat(rng), p=rpos(rng), t=rpos(rng), e=(rhalf(rng), rhalf(rng, True), rhalf(rng)), h=rhalf(rng),
+                 n=rng.choice([-3, -2, -1, 0, 1, 2, 3]))
         p, pq = fv(c["p"]), c["pq"][0].xyzw()
-        if kind == "facing":
-            c["call"] = ("facing_", p, pq, c["tq"][0].xyzw())
-        elif kind == "facing3":
-            c["call"] = ("facing3_", p, pq, tuple(ang_f(x) for x in c["e"]))
-        elif kind == "apparent":
+        if kind == "apparent":
             c["call"] = ("appfacing_", p, pq, ang_f(c["h"]), fv(c["t"]))
         else:
-            c["call"] = (kind + "_", p, pq, fv(c["t"]))
+            a = {"num": lambda: ang_f(c["h"]), "int": lambda: c["n"], "tup": lambda: tuple(ang_f(x) for x in c["e"]),
+                 "ori": lambda: c["tq"][0].xyzw(), "vf": lambda: c["tq"][0].xyzw(), "vfh": lambda: ang_f(c["h"]),
+                 "app": lambda: (ang_f(c["h"]), fv(c["t"]))}.get(kind, lambda: fv(c["t"]))()
+            fn = {"int": "num", "vfh": "vf"}.get(kind, kind)
+            c["call"] = (f"ff_{mode}_{fn}", p, pq, a)
         c["idx"] = batch.add(c["call"])
         cases.append(c)
     return cases
 
 
+def rot_zxy(y, p, r):
+    """matrix of the intrinsic yaw (Z), pitch (X), roll (Y) rotation — plain numpy, independent of Scenic"""
+    np = np_()
+    cy, sy, cp, sp, cr, sr = math.cos(y), math.sin(y), math.cos(p), math.sin(p), math.cos(r), math.sin(r)
+    Z = np.array([[cy, -sy, 0.0], [sy, cy, 0.0], [0.0, 0.0, 1.0]])
+    X = np.array([[1.0, 0.0, 0.0], [0.0, cp, -sp], [0.0, sp, cp]])
+    Y = np.array([[cr, 0.0, sr], [0.0, 1.0, 0.0], [-sr, 0.0, cr]])
+    return Z @ X @ Y
+
+
+def quat_matrix(q):
+    """matrix of an exact quaternion (harness arithmetic only)"""
+    np = np_()
+    return np.array([[float(x) for x in q.apply(e)] for e in ((1, 0, 0), (0, 1, 0), (0, 0, 1))]).T
+
+
 def finish_facing(ctx, batch, cases):
     np = np_()
-    from scenic.core.vectors import Orientation
     found = False
     for c in cases:
         raw = batch.res[c["idx"]]
+        kind, mode, pk = c["kind"], c.get("mode", "ex"), c["pq"][1]
         ctx.evaluations += 1
-        ctx.hist("oracle_facing", f"{c['kind']}:{c['pq'][1]}")
+        ctx.hist("oracle_facing", f"{kind}:{mode}:{pk}")
         v = crashed(ctx, c, raw, "facing")
         if v is not None:
             found |= v
             continue
-        rep = rep_of(c, c["kind"])
-        o = raw[0] if c["kind"] == "apparent" else raw
+        rep = rep_of(c, f"{kind} ({mode})")
+        o = raw[0] if kind == "apparent" else raw
         P = o.parentOrientation.r
         G = o.orientation.r.as_matrix()
-        if c["kind"] in ("facing", "facing3"):
-            T = (Orientation.fromQuaternion(c["tq"][0].xyzw()) if c["kind"] == "facing"
-                 else Orientation.fromEuler(*(ang_f(x) for x in c["e"]))).r.as_matrix()
-            if np.abs(G - T).max() > 1e-9:
-                found |= ctx.violation(f"facing-global:{c['kind']}:{c['pq'][1]}",
-                                       "`facing X` under a non-trivial parentOrientation does not give global orientation X", rep)
+        PQ = quat_matrix(c["pq"][0])
+        how = {"ex": "given by `with parentOrientation`", "op": "inherited from an oriented point (`ahead of P by 1`)",
+               "sf": "inherited from an oriented surface (`on R`)"}[mode]
+        if np.abs(P.as_matrix() - PQ).max() > 1e-9:
+            found |= ctx.violation(f"facing-parent:{mode}", f"the parent orientation {how} is not the stated one", rep)
+            continue
+        if kind in ("num", "int", "tup", "ori", "vf", "vfh", "facing", "facing3"):
+            if kind in ("num", "vfh"):
+                T, arg = rot_zxy(ang_f(c["h"]), 0.0, 0.0), f"the number {ang_f(c['h'])!r}"
+            elif kind == "int":
+                T, arg = rot_zxy(float(c["n"]), 0.0, 0.0), f"the integer {c['n']}"
+            elif kind in ("tup", "facing3"):
+                e = tuple(ang_f(x) for x in c["e"])
+                T, arg = rot_zxy(*e), f"the tuple {e!r}"
+            else:
+                T, arg = quat_matrix(c["tq"][0]), f"the orientation {c['tq'][0].xyzw()!r} (x,y,z,w)"
+            if np.abs(G - T).max() > 1e-8:
+                found |= ctx.violation(f"facing-global:{kind}:{mode}:{pk}",
+                                       f"`facing X` with X {arg}{' (as a vector field)' if kind in ('vf', 'vfh') else ''} under the "
+                                       f"parent orientation {c['pq'][0].xyzw()!r} (x,y,z,w) {how} does not give the global "
+                                       f"orientation X: max matrix deviation {np.abs(G - T).max():.3g}", rep)
             continue
         d = np.array([float(x) for x in c["t"]]) - np.array(o.position)
-        if c["kind"] in ("away", "daway"):
+        if kind in ("away", "daway"):
             d = -d
         if np.linalg.norm(d) < 1e-3:
             continue
         fwd = G @ np.array([0.0, 1.0, 0.0])
-        if c["kind"] in ("dtoward", "daway"):
+        if kind in ("dtoward", "daway"):
             if np.linalg.norm(fwd - d / np.linalg.norm(d)) > 1e-8:
-                found |= ctx.violation(f"facing-directly:{c['kind']}:{c['pq'][1]}",
+                found |= ctx.violation(f"facing-directly:{kind}:{mode}:{pk}",
                                        f"forward axis {list(fwd)} does not point along {list(d / np.linalg.norm(d))}", rep)
             continue
-        if c["kind"] in ("toward", "away"):
+        if kind in ("toward", "away"):
             u = P.inv().apply(d)
             f = P.inv().apply(fwd)
             hn = math.hypot(u[0], u[1])
@@ -1107,24 +1207,24 @@ def finish_facing(ctx, batch, cases):
                 continue
             # only yaw is specified (pitch = roll = 0 by default): forward is horizontal in the parent frame
             if abs(f[2]) > 1e-9 or math.hypot(f[0] - u[0] / hn, f[1] - u[1] / hn) > 1e-8:
-                found |= ctx.violation(f"facing-toward:{c['kind']}:{c['pq'][1]}",
+                found |= ctx.violation(f"facing-toward:{kind}:{mode}:{pk}",
                                        f"in the parent frame forward is {list(f)}, target direction {list(u / hn)}", rep)
             continue
-        # apparently facing H from T: the apparent heading of the result from T must be H
+        # apparently facing H from T
         H = ang_f(c["h"])
-        if math.hypot(d[0], d[1]) < 1e-3:
-            continue
-        got = float(raw[1])
         los = np.array(o.position) - np.array([float(x) for x in c["t"]])
-        az = math.atan2(los[1], los[0]) - math.pi / 2
-        hdg = math.atan2(-G[0][1], G[1][1])
-        if angdiff(hdg - az, got) > 1e-8:
-            found |= ctx.violation("apparent-heading:inconsistent",
-                                   f"`apparent heading of` returned {got!r}, heading - azimuth is {hdg - az!r}", rep)
-        if c["pq"][1] in ("id", "yaw") and angdiff(hdg - az, H) > 1e-8:
-            key = "apparently-facing:global-parent" if c["pq"][0].is_identity() else "apparently-facing:yaw-parent"
-            found |= ctx.violation(key, f"`apparently facing {H!r} from P` with parent orientation {c['pq'][0].xyzw()} "
-                                        f"(x,y,z,w) gives apparent heading {(hdg - az)!r}", rep)
+        if kind == "apparent" and math.hypot(d[0], d[1]) >= 1e-3:
+            # the apparent heading of the result from T must be H (parents without pitch / roll)
+            got = float(raw[1])
+            az = math.atan2(los[1], los[0]) - math.pi / 2
+            hdg = math.atan2(-G[0][1], G[1][1])
+            if angdiff(hdg - az, got) > 1e-8:
+                found |= ctx.violation("apparent-heading:inconsistent",
+                                       f"`apparent heading of` returned {got!r}, heading - azimuth is {hdg - az!r}", rep)
+            if pk in ("id", "yaw") and angdiff(hdg - az, H) > 1e-8:
+                key = "apparently-facing:global-parent" if c["pq"][0].is_identity() else "apparently-facing:yaw-parent"
+                found |= ctx.violation(key, f"`apparently facing {H!r} from P` with parent orientation {c['pq'][0].xyzw()} "
+                                            f"(x,y,z,w) gives apparent heading {(hdg - az)!r}", rep)
         # any parent orientation: in the parent frame the forward axis is the horizontal line of sight turned by H
         u = P.inv().apply(los)
         f = P.inv().apply(fwd)
@@ -1132,9 +1232,9 @@ def finish_facing(ctx, batch, cases):
         if hn > 1e-3:
             want = np.array([math.cos(H) * u[0] - math.sin(H) * u[1], math.sin(H) * u[0] + math.cos(H) * u[1], 0.0]) / hn
             if np.abs(f - want).max() > 1e-8:
-                found |= ctx.violation("apparently-facing:parent-frame",
-                                       f"`apparently facing {H!r} from P`: in the parent frame forward is {list(f)}, "
-                                       f"the line of sight turned by H is {list(want)}", rep)
+                found |= ctx.violation("apparently-facing:parent-frame" + ("" if mode == "ex" else ":" + mode),
+                                       f"`apparently facing {H!r} from P` (parent orientation {how}): in the parent frame forward "
+                                       f"is {list(f)}, the line of sight turned by H is {list(want)}", rep)
     return found
 
 
